@@ -193,3 +193,45 @@ Print Assumptions C08_lowering_tsem_pat_id.
 Theorem C08_lowering_tsem_pat_tuple : ltac:(let T := type of tsem_pat_tuple in exact T).
 Proof. exact tsem_pat_tuple. Qed.
 Print Assumptions C08_lowering_tsem_pat_tuple.
+
+(* ------------------------------------------------------------------ the REAL algorithm.  Exhaust/
+   Useful.v is a Gallina model of check.rs's check_exhaustiveness / usefulness / specialize /
+   split_ctor / range splitting (Maranget-style usefulness, including its two early exits and the
+   witness reconstruction); on every run its sorted witness list must equal, textually, the
+   missing cases the real checker reports (tools/c08.py, obligation "correspondence Exhaust/
+   Useful.v = check.rs usefulness").  Proved about it, for well-formed type environments,
+   closed non-recursive inhabited types and well-typed arms: every reported missing case is a
+   well-typed pattern that denotes at least one value and only uncovered values; if any value
+   is uncovered the report is non-empty; hence it accepts exactly the exhaustive matches, and
+   it agrees with the reference procedure [covers] wherever both answer. *)
+From GV Require Import Exhaust.Useful Exhaust.UsefulProofs.
+
+Theorem C08_real_algorithm_reports_exactly_the_missing_cases :
+  forall env d t ps, env_wf env = true -> tok env d t = true ->
+  (forall p, In p ps -> pat_wt env t p = true) ->
+  forall f ws, check_exhaustive f env t ps = Some ws ->
+  (forall w, In w ws -> exists p, w = [p] /\ pat_wt env t p = true /\
+      (exists v, has_type env v t = true /\ pat_matches p v = true) /\
+      (forall v, has_type env v t = true -> pat_matches p v = true ->
+                 forall a, In a ps -> pat_matches a v = false)) /\
+  ((exists v, has_type env v t = true /\ forall a, In a ps -> pat_matches a v = false) -> ws <> []).
+Proof. intros env d t ps W Ht Hps. exact (check_exhaustive_correct env d t ps W Ht Hps). Qed.
+Print Assumptions C08_real_algorithm_reports_exactly_the_missing_cases.
+
+Theorem C08_real_algorithm_accepts_iff_exhaustive :
+  forall env d t ps, env_wf env = true -> tok env d t = true ->
+  (forall p, In p ps -> pat_wt env t p = true) ->
+  forall f, (fuel_bound env d [t] <= f)%nat ->
+  (check_exhaustive f env t ps = Some [] <->
+   forall v, has_type env v t = true -> exists p, In p ps /\ pat_matches p v = true).
+Proof. intros env d t ps W Ht Hps. exact (useful_iff_covers env d t ps W Ht Hps). Qed.
+Print Assumptions C08_real_algorithm_accepts_iff_exhaustive.
+
+Theorem C08_real_algorithm_agrees_with_reference :
+  forall env d t ps, env_wf env = true -> tok env d t = true ->
+  (forall p, In p ps -> pat_wt env t p = true) ->
+  forall f ws cap fuel b,
+  check_exhaustive f env t ps = Some ws -> covers env cap fuel t ps = Some b ->
+  (b = true <-> ws = []).
+Proof. intros env d t ps W Ht Hps. exact (useful_agrees_with_covers env d t ps W Ht Hps). Qed.
+Print Assumptions C08_real_algorithm_agrees_with_reference.
